@@ -103,6 +103,9 @@ def judge(handler_name, fn, flag, kind, class_node):
                     if "Variable" in getattr(c, "what", ""):
                         return isinstance(v, Node) and v.fields.get(
                             "is_variable", False)
+                    _r = __import__("pv.absint", fromlist=["x"]).default_isinstance(v, c)
+                    if _r is not None:
+                        return _r
                     raise AnalysisError(f"isinstance(..., {c!r})")
                 it = Interp(calls={
                     "super": lambda it_, n_, a, k: _Super(),
